@@ -103,7 +103,7 @@ func isOutputSinkType(t types.Type) bool {
 func (p *Prog) lenIsOneGuard(l mapLoop) bool {
 	cz := p.canonFor(l.fn)
 	want := "len(" + cz.of(l.src) + ")"
-	for _, g := range dominatingGuards(l.header) {
+	for _, g := range expandAndGuards(dominatingGuards(l.header)) {
 		ng := normGuard(g)
 		bo, ok := ng.Cond.(*ssa.BinOp)
 		if !ok {
@@ -121,6 +121,34 @@ func (p *Prog) lenIsOneGuard(l mapLoop) bool {
 		}
 	}
 	return false
+}
+
+// expandAndGuards: a guard on a boolean phi that is known true and has exactly one incoming edge that is not the constant false
+// (the SSA form of `a && b` used as a condition) implies the value of that edge and everything that guards its source block.
+func expandAndGuards(gs []guard) []guard {
+	out := append([]guard{}, gs...)
+	for _, g := range gs {
+		ng := normGuard(g)
+		ph, ok := ng.Cond.(*ssa.Phi)
+		if !ok || !ng.Pol || !isBoolType(ph.Type()) {
+			continue
+		}
+		live := -1
+		n := 0
+		for i, e := range ph.Edges {
+			if b, isC := constBool(e); isC && !b {
+				continue
+			}
+			live = i
+			n++
+		}
+		if n != 1 {
+			continue
+		}
+		out = append(out, guard{ph.Edges[live], true})
+		out = append(out, dominatingGuards(ph.Block().Preds[live])...)
+	}
+	return out
 }
 
 var sortFuncs = []string{"sort.Sort", "sort.Stable", "sort.Strings", "sort.Slice", "sort.SliceStable", "sort.Ints", "sort.Float64s"}
@@ -336,6 +364,66 @@ func (p *Prog) orderLoop(r *Report, rule string, l mapLoop, ord *ordinalKeys) {
 		}
 		if len(reads) > 0 && len(problems) == 0 {
 			p.sortKeyPurity(r, l, base, aliases, sortCalls, depVal)
+		}
+	}
+	// what is stored for one entry must not depend on how many entries were visited before it: no element store inside the loop
+	// is computed from, or conditional on, loop-carried state other than integer counters (which only choose the slot)
+	{
+		carried := map[ssa.Value]bool{}
+		for _, in := range l.header.Instrs {
+			ph, ok := in.(*ssa.Phi)
+			if !ok {
+				break
+			}
+			if isIntType(ph.Type()) {
+				continue
+			}
+			for i, pr := range l.header.Preds {
+				if l.header.Dominates(pr) && ph.Edges[i] != ssa.Value(ph) {
+					carried[ph] = true
+				}
+			}
+		}
+		if len(carried) > 0 {
+			dependsOnCarried := func(v ssa.Value) bool {
+				for x := range backwardSlice(fn, v) {
+					if carried[x] {
+						return true
+					}
+				}
+				return false
+			}
+			for b := range l.body {
+				for _, in := range b.Instrs {
+					st, ok := in.(*ssa.Store)
+					if !ok {
+						continue
+					}
+					if _, isElem := st.Addr.(*ssa.IndexAddr); !isElem {
+						continue
+					}
+					bad := dependsOnCarried(st.Val)
+					if !bad {
+						for _, blk := range fn.Blocks {
+							if !l.body[blk] || blk == l.header || len(blk.Instrs) == 0 {
+								continue
+							}
+							ifi, ok := blk.Instrs[len(blk.Instrs)-1].(*ssa.If)
+							if !ok {
+								continue
+							}
+							for si := 0; si < 2; si++ {
+								if edgeDominates(blk, si, b) && dependsOnCarried(ifi.Cond) {
+									bad = true
+								}
+							}
+						}
+					}
+					if bad {
+						problems = append(problems, "what is stored for an entry at "+p.Pos(st.Pos())+" depends on state carried over from the entries visited before it")
+					}
+				}
+			}
 		}
 	}
 	if len(problems) == 0 {
